@@ -740,8 +740,10 @@ class C04(Property):
             'longer than announced), segmentations {whole, byte-wise, 127/128/129/8191/8192/8193-sized, halves, random, '
             'bursts}, download limiter off / 1 / 50 / 4096 KiB/s; ul cases: same sizes, offsets {0,1,size-1,size,'
             'size+1,beyond,random,127..129}, limiter on/off, ops {one send_file iteration, write error, peer close, peer '
-            'reset} incl. re-attempts after FAILED/COMPLETE; pair cases (thorough; 4 in quick): two full clients + '
-            'simulated server, file connection reset after k bytes 0..3 times, then fault-free. All from VERIF_SEED. '
+            'reset} incl. re-attempts after FAILED/COMPLETE; pair cases (40 quick / 400 thorough): two full clients + '
+            'simulated server with per-connection latencies, file connection reset after k bytes 0..3 times (the '
+            'downloader learns of the reset 0..400 s after the uploader, so PeerUploadFailed arrives before or after), '
+            'then fault-free. All from VERIF_SEED. '
             'Non-trivial: >= 2 attempts, or a cut / dishonest sender / pre-existing file / offset > 0 / failure op. '
             'Distinct = distinct canonical case')
     assumptions = [
@@ -798,7 +800,7 @@ class C04(Property):
         # (d) pairs
         try:
             from props import c04_pair
-            cases += c04_pair.gen_cases(rng, (4 if quick else 200) * (1 if quick else widen))
+            cases += c04_pair.gen_cases(rng, (40 if quick else 400) * widen)
         except ImportError:
             pass
         return cases, n_fixed
@@ -843,13 +845,10 @@ class C04(Property):
             if any(o and (o.startswith('HARNESS-EXC')) for o in obs):
                 res.notes.append(f'harness exception: {obs[-1][:300]} on {str(c)[:200]}')
                 continue
-            if any(o and o.startswith('LOOP-EXC') for o in obs):
-                res.violations.append(Violation('C04-unhandled-exception', 'an exception escaped into the event loop',
-                                                c, observed=[o for o in obs if o and o.startswith('LOOP-EXC')]))
             if model is not None and c['kind'] != 'pair':
                 res.traces_validated += 1
                 mo = model[i]
-                cmp_obs = [o for o in obs if not (o and o.startswith('LOOP-EXC'))]
+                cmp_obs = obs       # an exception that escaped into the event loop shows as an extra line
                 bad = None
                 if len(mo) != len(cmp_obs):
                     bad = min(len(mo), len(cmp_obs))
